@@ -102,11 +102,22 @@ def run_case(ctx, rep, spec, variables, limit, model, path=None, P=None, start=N
     else:
         rep.tie("the fields colander wrote (names / positions) differ from the Lean selection rule", case,
                 {"real": Q["fields"], "model": mn})
+    if kept:
+        diff = writers.level_headers_match_rewrite(path, out, Q, kept, leanio)
+        if diff:
+            rep.tie(f"the level headers of levels {diff} differ from the Lean line rewriter's (C05.level_header_rows_restricted)", case)
+        else:
+            rep.agree(); rep.count("level-headers-are-the-rewriter's")
     cert = tastelib.wf_certificate(out, leanio)
     if cert is None:
         rep.agree(); rep.count("wf-certificate-passes")
     elif cert != "names":
         rep.tie(f"colander's output does not pass the Lean well-formedness certificate ({cert})", case)
+    why = writers.output_header_matches_rewrite(path, out, limit, Q["fields"], "colander", leanio, rep)
+    if why:
+        rep.tie(f"header colander derives from its input: {why} (C05.output_header_keeps_mesh / output_header_read_back)", case)
+    else:
+        rep.agree(); rep.count("output-header-is-the-writer-model's")
     why = writers.global_header_theorem_applies(out, leanio)
     if why:
         rep.tie(f"global header of colander's output: {why} (whose parse-after-render law is proved)", case)
@@ -119,6 +130,12 @@ def run(ctx, rep, model=True):
     for i in range(n):
         spec = plotgen.random_spec(ctx.rng, ndims=[3, 2][i % 2], nf=[3, 4, 2, 5, 1][i % 5], data=["bits", "tags"][i % 3 == 2],
                                    B=2, layout=["scatter", "perm", "files", "scatter"][i % 4], repeats=(i % 7 == 6))
+        if i % 5 == 2:
+            spec["subcycle"] = True; spec["step"] = 7        # per-level steps 7, 14, 28
+        if i % 4 == 3:
+            # species names with a comma (isomers such as 1,3-butadiene) or a space in them
+            k = ctx.rng.randrange(len(spec["fields"]))
+            spec["fields"][k] = ["Y(C4H6-1,3)", "Y(C5H8 1,3)", "I_R(C4H6-1,3)"][(i // 4) % 3]; rep.count("field-name-with-comma")
         path = ctx.newdir("c05in_")
         plotgen.materialize(spec, path)
         P = oracle.parse(path)
